@@ -231,9 +231,9 @@ def work(unit):
     """explore the subtree below one root prefix; returns counts, outcome histogram and violating schedules"""
     name, bound, choices, expect, allowed = unit
     allowed = set(allowed)
-    n = 0; hist = collections.Counter(); bad = []; maxpts = 0
+    n = 0; hist = collections.Counter(); bad = []; maxpts = 0; pts = 0
     for ch, trace, obs in sched.explore(lambda c, e: run_once(name, c, e), bound, root=(choices, expect)):
-        n += 1; hist[obs] += 1; maxpts = max(maxpts, len(trace))
+        n += 1; hist[obs] += 1; maxpts = max(maxpts, len(trace)); pts += len(trace)
         if obs not in allowed and len(bad) < 5:
             # confirm by replaying the same schedule twice: identical observation required before anything is reported
             t2, o2 = run_once(name, [t[1] for t in trace], [t[0] for t in trace])
@@ -243,7 +243,7 @@ def work(unit):
             else:
                 raise RuntimeError(f"harness error: schedule not reproducible ({obs} / {o2} / {o3})")
     reset(PROGRAMS[name][1])
-    return name, n, dict(hist), bad, maxpts
+    return name, n, dict(hist), bad, maxpts, pts
 
 
 def run(ctx):
@@ -276,8 +276,9 @@ def run(ctx):
             work_units.append(u[:5])
     import random
     random.Random(ctx.seed).shuffle(work_units)
-    for name, n, hist, bad, mp in runner.pmap(work, work_units, chunksize=1):
-        per_prog[name] += n; outcomes[name].update(hist); maxpts[name] = max(maxpts[name], mp)
+    total_pts = sum(roots[n][0] for n in PROGRAMS)
+    for name, n, hist, bad, mp, pts in runner.pmap(work, work_units, chunksize=1):
+        per_prog[name] += n; outcomes[name].update(hist); maxpts[name] = max(maxpts[name], mp); total_pts += pts
         for choices, obs, pre in bad:
             nz = [i for i, c in enumerate(choices) if c]
             ctx.violation({"kind": "schedule", "program": name, "preemptions": str(pre), "obs": obs[:300]},
@@ -292,11 +293,11 @@ def run(ctx):
         ctx.counters[f"{name}: preemption bound"] = bounds.get(name, 1)
         ctx.sample({"program": name, "threads": PROGRAMS[name][0], "preemption_bound": bounds.get(name, 1), "executions": per_prog[name]})
     ctx.coverage = {
-        "states": sum(len(v) for v in outcomes.values()), "transitions": sum(maxpts[n] * per_prog[n] for n in PROGRAMS), "traces_validated_against_impl": total,
+        "states": sum(len(v) for v in outcomes.values()), "transitions": total_pts, "traces_validated_against_impl": total,
         "exhaustive": True, "programs": len(PROGRAMS), "executions": total,
         "rule": "for every thread program all schedules with <= k pre-emptions (k per program in counters), scheduling points = every source line of einx's "
                 "backend.py/api.py/lru_cache.py/tracer/graph.py plus lock acquires; states = distinct observations (per-thread results + final registry state), "
-                "transitions = scheduling points executed (upper bound: max points x executions); each execution runs the real code and is compared with the set "
+                "transitions = scheduling points executed (measured); each execution runs the real code and is compared with the set "
                 "of serial outcomes",
     }
     ctx.assumptions = ["CPython with the GIL; pre-emption granularity = source line in the traced files (code in other files runs atomically)",
